@@ -21,6 +21,7 @@ RULE = ("Generated: one or two order books with 1-8 orders each (buy/sell, overl
         "= frac*capa*price*sum(dt*disc); removing the orders without in-horizon step changes nothing. "
         "Non-trivial: >= 1 order executed (frac > 0.01) and >= 1 order with an in-horizon step not fully executed "
         "(frac < 0.99). Distinct = distinct spec hash.")
+RULE += (' Round 5: orders in the documented DataFrame form (zone-aware on aware grids) in a quarter of the books; daily grids around a daylight-saving switch (equal first and last step) in 1 of 8 cases.')
 ASSUMPTIONS = ["order windows lie on step boundaries", "HiGHS milp (presolve off, gap 0) is the reference for full execution",
                "naive order stamps on zone-aware grids are a precondition violation (not generated)"]
 
